@@ -205,3 +205,50 @@ func ZZH_C10_removal_sensitive() {
 	zz.Assert("C10.removal-changes-root", zz.Not(zz.EqBytes(none, b)))
 	zz.Assert("C10.which-key-was-removed-changes-root", zz.Not(zz.EqBytes(ab, b)))
 }
+
+// ZZH_C10_field_sensitive: an account committed in an earlier block (balance, nonce, code set)
+// gets exactly one of its record fields rewritten in the next block, with two different symbolic
+// values in two runs (or written vs not written): the roots differ. A single changed nonce,
+// balance or code is covered by the root also when nothing else of the account changes.
+func ZZH_C10_field_sensitive() {
+	store := zz.NewStore()
+	l := zzNewLedger(store, nil)
+	l.SetBalance(zzAddrs[1], big.NewInt(5))
+	l.SetNonce(zzAddrs[1], 1)
+	l.SetCode(zzAddrs[1], []byte{7})
+	zzCommit(l, 1)
+	field := zz.Choice("field", 3)
+	x, y := zz.U64i("x"), zz.U64i("y")
+	zz.Assume(x != y)
+	zz.Assume(x < 200 && y < 200)
+	cx, cy := zz.U8("codeX"), zz.U8("codeY")
+	zz.Assume(cx != cy)
+	run := func(v uint64, write bool) []byte {
+		s := store.Clone()
+		z := zzNewLedger(s, nil)
+		cb := cx
+		if v == y {
+			cb = cy
+		}
+		// another account changes in every run, so that the block is never empty
+		z.SetState(zzAddrs[0], []byte("a"), []byte{1}, nil)
+		if write {
+			switch field {
+			case 0:
+				z.SetNonce(zzAddrs[1], v)
+			case 1:
+				z.SetBalance(zzAddrs[1], new(big.Int).SetUint64(v))
+			default:
+				z.SetCode(zzAddrs[1], []byte{cb})
+			}
+		}
+		_, r := z.FlushDirtyData()
+		return r.Bytes()
+	}
+	rx, ry := run(x, true), run(y, true)
+	zz.Assert("C10.field-value-changes-root", zz.Not(zz.EqBytes(rx, ry)))
+	committed := []uint64{1, 5, 7}[field]
+	if (field != 2 && x != committed) || (field == 2 && cx != 7) {
+		zz.Assert("C10.field-write-changes-root", zz.Not(zz.EqBytes(rx, run(0, false))))
+	}
+}
